@@ -219,14 +219,159 @@ end Mxl.C17.Gen
 """
 
 
+# ------------------------------------------------------------------------------------------------ session effects of read()
+
+
+def _import_path(repo: Path) -> Path:
+    return Path(repo) / "src" / "mxlpy" / "sbml" / "_import.py"
+
+
+def session_facts(repo: Path) -> dict:
+    """Every effect of `_import.py` on state that outlives one call of `read`, or Unsupported.
+
+    allowed:  module level: docstring, imports, `__all__ = [...]`, `if TYPE_CHECKING:` imports, function definitions
+              functions:    no decorators, no `global` / `nonlocal`, no mutable default argument;
+                            stores only to local names and to attributes / items of objects created in the same function
+                            (`sym = SymbolicRepr()`), plus the two recognised effects:
+                              `sys.modules[module_name] = module`        in import_from_path
+                              `path.open("w+")` + `f.write(...)`          in _codegen, path = default_tmp_dir(...) / f"{name}.py"
+    read():   digest = hashlib.sha256(file.read_bytes()).hexdigest()[:N];  out_name = f"{valid_filename(file.stem)}_{digest}"
+              model_fn = import_from_path(out_name, _codegen(out_name, model));  return model_fn()
+    """
+    tree = ast.parse(_import_path(repo).read_text())
+    effects: list[str] = []
+    fns: dict[str, ast.FunctionDef] = {}
+    for st in tree.body:
+        if isinstance(st, ast.Expr) and isinstance(st.value, ast.Constant):
+            continue
+        if isinstance(st, (ast.Import, ast.ImportFrom)):
+            continue
+        if isinstance(st, ast.Assign) and len(st.targets) == 1 and isinstance(st.targets[0], ast.Name) \
+                and st.targets[0].id == "__all__":
+            continue
+        if isinstance(st, ast.If) and ast.unparse(st.test) == "TYPE_CHECKING" \
+                and all(isinstance(x, (ast.Import, ast.ImportFrom)) for x in st.body) and not st.orelse:
+            continue
+        if isinstance(st, ast.FunctionDef):
+            fns[st.name] = st
+            continue
+        raise Unsupported(f"_import.py: module-level statement that may hold state: {ast.unparse(st)[:80]}")
+    for name, fn in fns.items():
+        if fn.decorator_list:
+            raise Unsupported(f"_import.py: {name} has a decorator (memoisation?)")
+        for d in fn.args.defaults + [d for d in fn.args.kw_defaults if d is not None]:
+            if not isinstance(d, ast.Constant):
+                raise Unsupported(f"_import.py: {name} has a non-constant default argument")
+        local_objs: set[str] = set()
+        for n in ast.walk(fn):
+            if isinstance(n, (ast.Global, ast.Nonlocal)):
+                raise Unsupported(f"_import.py: {name} declares {ast.unparse(n)}")
+            if isinstance(n, (ast.FunctionDef, ast.Lambda, ast.ClassDef)) and n is not fn:
+                raise Unsupported(f"_import.py: {name} defines a nested function / class")
+            if isinstance(n, ast.Assign) and isinstance(n.value, ast.Call) and all(isinstance(t, ast.Name) for t in n.targets):
+                local_objs.update(t.id for t in n.targets)       # an object created by a call in this function
+        for n in ast.walk(fn):
+            targets = []
+            if isinstance(n, ast.Assign):
+                targets = n.targets
+            elif isinstance(n, (ast.AugAssign, ast.AnnAssign)):
+                targets = [n.target]
+            elif isinstance(n, ast.Delete):
+                targets = n.targets
+            for t in targets:
+                if isinstance(t, ast.Name):
+                    continue
+                root = t
+                while isinstance(root, (ast.Attribute, ast.Subscript)):
+                    root = root.value
+                txt = ast.unparse(t)
+                if name == "import_from_path" and txt == "sys.modules[module_name]" and ast.unparse(n.value) == "module":
+                    effects.append(".sysModules")
+                    continue
+                if isinstance(root, ast.Name) and root.id in local_objs and root.id == "sym":
+                    continue
+                raise Unsupported(f"_import.py: {name} stores to a non-local object: {txt}")
+            if isinstance(n, ast.Call) and isinstance(n.func, ast.Attribute):
+                a = n.func.attr
+                if a in ("open", "write_text", "write_bytes", "unlink", "mkdir", "rename", "replace", "touch"):
+                    if name == "_codegen" and a == "open" and ast.unparse(n.func.value) == "path":
+                        effects.append(".file")
+                        continue
+                    raise Unsupported(f"_import.py: {name} touches the file system: {ast.unparse(n)[:80]}")
+                if a in ("setdefault", "update", "append", "add", "pop", "clear", "extend", "insert", "remove"):
+                    r = n.func.value
+                    while isinstance(r, (ast.Attribute, ast.Subscript)):
+                        r = r.value
+                    if not (isinstance(r, ast.Name) and r.id in local_objs):
+                        raise Unsupported(f"_import.py: {name} mutates a non-local container: {ast.unparse(n)[:80]}")
+    for need in ("read", "_codegen", "import_from_path", "valid_filename"):
+        if need not in fns:
+            raise Unsupported(f"_import.py: function {need} not found")
+    cg = ast.unparse(fns["_codegen"])
+    if "path = default_tmp_dir(None, remove_old_cache=False) / f'{name}.py'" not in cg or "f.write(generate_mxlpy_code_from_symbolic_repr(sym" not in cg:
+        raise Unsupported("_codegen: the file written is not <tmp dir>/<name>.py with the generated code")
+    body = [st for st in fns["read"].body if not (isinstance(st, ast.Expr) and isinstance(st.value, ast.Constant))]
+    src = [ast.unparse(st) for st in body]
+    if len(src) != 5 or src[0] != "model = pysbml.load_and_transform_model(file)" \
+            or src[3] != "model_fn = import_from_path(out_name, _codegen(out_name, model))" or src[4] != "return model_fn()":
+        raise Unsupported("read: statements not recognised:\n" + "\n".join(src))
+    dg = body[1]
+    if not (isinstance(dg, ast.Assign) and isinstance(dg.targets[0], ast.Name) and isinstance(dg.value, ast.Subscript)
+            and ast.unparse(dg.value.value) == "hashlib.sha256(file.read_bytes()).hexdigest()"
+            and isinstance(dg.value.slice, ast.Slice) and dg.value.slice.lower is None and dg.value.slice.step is None
+            and isinstance(dg.value.slice.upper, ast.Constant) and isinstance(dg.value.slice.upper.value, int)):
+        raise Unsupported(f"read: digest is not sha256(file bytes).hexdigest()[:N]: {src[1]}")
+    nm = body[2]
+    if not (isinstance(nm, ast.Assign) and ast.unparse(nm.targets[0]) == "out_name" and isinstance(nm.value, ast.JoinedStr)):
+        raise Unsupported(f"read: out_name is not an f-string: {src[2]}")
+    parts = []
+    for v in nm.value.values:
+        if isinstance(v, ast.Constant):
+            parts.append(f'.lit "{v.value}"')
+        elif isinstance(v, ast.FormattedValue) and ast.unparse(v.value) == "valid_filename(file.stem)":
+            parts.append(".validFilename")
+        elif isinstance(v, ast.FormattedValue) and ast.unparse(v.value) == dg.targets[0].id:
+            parts.append(".digest")
+        else:
+            raise Unsupported(f"read: piece of out_name: {ast.unparse(v)}")
+    vf = ast.unparse(fns["valid_filename"].body[-1])
+    if vf != "return f'mb_{value}'":
+        raise Unsupported(f"valid_filename: {vf}")
+    return {"digest_len": dg.value.slice.upper.value, "parts": parts, "effects": sorted(set(effects))}
+
+
+def render_session(repo: Path) -> str:
+    f = session_facts(repo)
+    return f"""-- GENERATED by /verif/translate/c17.py from src/mxlpy/sbml/_import.py; do not edit
+namespace Mxl.C17.GenSession
+
+inductive NamePart where | validFilename | lit (s : String) | digest
+deriving Repr, DecidableEq
+
+/-- state outliving a call of `read` that `_import.py` writes -/
+inductive Effect where | file | sysModules
+deriving Repr, DecidableEq
+
+def digestLen : Nat := {f['digest_len']}
+def moduleNameParts : List NamePart := [{', '.join(f['parts'])}]
+def sessionEffects : List Effect := [{', '.join(f['effects'])}]
+
+end Mxl.C17.GenSession
+"""
+
+
 def generate(repo: Path, outdir: Path) -> None:
     text = render(Path(repo))
     outdir.mkdir(parents=True, exist_ok=True)
     p = outdir / "C17Names.lean"
-    if p.exists() and hashlib.sha1(p.read_bytes()).digest() == hashlib.sha1(text.encode()).digest():
-        return
-    p.write_text(text)
+    if not (p.exists() and hashlib.sha1(p.read_bytes()).digest() == hashlib.sha1(text.encode()).digest()):
+        p.write_text(text)
+    text = render_session(Path(repo))
+    p = outdir / "C17Session.lean"
+    if not (p.exists() and hashlib.sha1(p.read_bytes()).digest() == hashlib.sha1(text.encode()).digest()):
+        p.write_text(text)
 
 
 if __name__ == "__main__":
     print(render(Path(sys.argv[1] if len(sys.argv) > 1 else "/repo")))
+    print(render_session(Path(sys.argv[1] if len(sys.argv) > 1 else "/repo")))
